@@ -101,6 +101,11 @@ Definition c_keep_absent (m : menv) : bool :=
 Definition c_keep_value (m : menv) : bool :=
   vstr_eqb (m_str m "ToLower(TrimSpace(each(arg1).head.metadata.annotations[helm.sh/resource-policy]))") "keep".
 
+(* ---- pkg/action/validate.go: requireValue (the three tests of checkOwnership) ---- *)
+
+Definition c_req_missing (m : menv) : bool := negb (m_b m "has(arg1[arg2])").
+Definition c_req_differs (m : menv) : bool := negb (vstr_eqb (m_str m "arg1[arg2]") (m_str m "arg3")).
+
 (* ---- pkg/storage/storage.go ---- *)
 
 (* Storage.Create: a history limit is set *)
@@ -197,6 +202,9 @@ Definition sites : list (string * list site) :=
       [ Outside "no-annotations" "subsumed by the lookup below: without annotations the policy annotation is absent (the model's fields have no separate annotations map)";
         Modelled "annotation-absent" c_keep_absent;
         Modelled "keep" c_keep_value ]);
+    ("requireValue",
+      [ Modelled "missing" c_req_missing;
+        Modelled "differs" c_req_differs ]);
     ("Storage.Create",
       [ Modelled "limit" c_create_limit ]);
     ("Storage.Deployed",
@@ -262,6 +270,13 @@ Definition manifest_keep_d (r : res) : bool :=
            (set_str "ToLower(TrimSpace(each(arg1).head.metadata.annotations[helm.sh/resource-policy]))"
                  (match a with Some v => to_lower (trim_space v) | None => "" end) env0) in
   if c_keep_absent m then false else c_keep_value m.
+
+(* validate.go: requireValue(meta, k, v) = nil *)
+Definition require_value_d (k v : string) (f : fields) : bool :=
+  let a := aget k f in
+  let m := set_b "has(arg1[arg2])" (match a with Some _ => true | None => false end)
+           (set_str "arg1[arg2]" (match a with Some x => x | None => "" end) (set_str "arg3" v env0)) in
+  if c_req_missing m then false else if c_req_differs m then false else true.
 
 (* storage.go: the toDelete loop *)
 Fixpoint prune_pick_d (h : list release) (deployed : option nat) (total maxkeep picked : nat) : list nat :=
